@@ -149,7 +149,8 @@ func getCorpus() *corpusT {
 			}
 		}
 		// handcrafted seeds
-		c.charts = append(c.charts, handChart())
+		// the three handcrafted charts are the LAST three entries (runChart picks them by position)
+		c.charts = append(c.charts, handLegacyChart(false), handLegacyChart(true), handChart())
 		c.indexes = append(c.indexes, []byte(handIndex))
 		c.values = append(c.values, []byte(handValues), []byte(handUserValues))
 		c.schemas = append(c.schemas, []byte(handSchema), []byte(handSchema2))
@@ -334,6 +335,63 @@ spec:
 {{ if .Values.sub.enabled }}sub is on{{ end }}
 {{ tpl "{{ .Release.Name }}" . }}
 `,
+}
+
+// Legacy (Helm 2 style) dependency declaration: requirements.yaml / requirements.lock. The loader
+// still unmarshals them into the chart's Metadata (for apiVersion v1 and, with a warning, v2).
+const handRequirements = `dependencies:
+  - name: sub
+    version: ">=0.1.0"
+    repository: "https://example.com/charts"
+    condition: sub.enabled,global.subEnabled
+    tags: [backend, web]
+    import-values:
+      - data
+      - child: exports.nested
+        parent: imported
+  - name: sub
+    alias: second
+    version: "0.x"
+    repository: "file://../sub"
+    enabled: true
+    import-values: [data]
+`
+
+const handRequirementsLock = `dependencies:
+- name: sub
+  repository: https://example.com/charts
+  version: 0.1.0
+digest: sha256:0000000000000000000000000000000000000000000000000000000000000000
+generated: "2024-01-01T00:00:00Z"
+`
+
+const handLegacyChartYAML = `apiVersion: v1
+name: legacy
+version: 0.9.0
+description: A Helm 2 style chart whose dependencies live in requirements.yaml
+keywords: [old]
+maintainers:
+  - name: someone
+    email: someone@example.com
+`
+
+// handLegacyChart: requirements.yaml is the ONLY dependency source (combined=false) or is combined
+// with a dependencies list inside Chart.yaml (combined=true, v1 or v2 Chart.yaml).
+func handLegacyChart(combined bool) chartSeed {
+	base := handChart()
+	cs := chartSeed{name: "legacy", files: map[string][]byte{}}
+	for n, b := range base.files {
+		cs.files[n] = b
+	}
+	delete(cs.files, "Chart.lock")
+	cs.files["Chart.yaml"] = []byte(handLegacyChartYAML)
+	cs.files["requirements.yaml"] = []byte(handRequirements)
+	cs.files["requirements.lock"] = []byte(handRequirementsLock)
+	if combined {
+		cs.name = "legacy-combined"
+		cs.files["Chart.yaml"] = []byte(handLegacyChartYAML + "dependencies:\n  - name: sub\n    version: 0.1.0\n    repository: https://example.com/charts\n    alias: fromchartyaml\n")
+	}
+	return cs
 }
 
 func handChart() chartSeed {
